@@ -72,6 +72,8 @@ class Stock:
         r = gen.build_rdms(self.spec, value_fn=gen.make_value_fn(salt))
         if self.variant % 2:
             r.dissimilarities[0, 1] = -0.75        # a negative entry
+        if (self.variant // 2) % 2:
+            r.dissimilarities[1, 2] = np.nan       # a missing entry
         return r
 
     def dataset(self, temporal=False):
